@@ -21,6 +21,17 @@ impl VerifPerf for ManiaPerformance<'_> {
         a_d == b_d && a_n320 == b_n320 && a_n300 == b_n300 && a_n200 == b_n200 && a_n100 == b_n100 && a_n50 == b_n50 && a_misses == b_misses && a_acc == b_acc && a_hitresult_priority == b_hitresult_priority
     }
 
+    fn v_map(&self) -> Option<&crate::Beatmap> {
+        match self.map_or_attrs {
+            MapOrAttrs::Map(ref m) => Some(m.as_ref()),
+            MapOrAttrs::Attrs(_) => None,
+        }
+    }
+
+    fn v_map_is_borrowed(&self) -> bool {
+        matches!(self.map_or_attrs, MapOrAttrs::Map(std::borrow::Cow::Borrowed(_)))
+    }
+
     fn v_attrs(&self) -> Option<&Self::Attrs> {
         match self.map_or_attrs {
             MapOrAttrs::Attrs(ref a) => Some(a),
